@@ -67,9 +67,9 @@ static std::string run_seq(const gen::ZFile &z, const std::vector<Req> &seq, siz
 }
 
 static void prop(Ctx &c) {
-    gen::ZFileOpts o; o.max_chunks = 8; o.max_chunk = c.tier ? 40000 : 6000;
+    gen::ZFileOpts o; o.max_chunks = 8; o.max_chunk = c.tier ? 40000 : 6000; o.big_rate = 10; o.big_huge = c.tier != 0;
     bool exhaustive = c.chance(1, 3);
-    if (exhaustive) { o.max_chunks = 4; o.max_chunk = 400; }
+    if (exhaustive) { o.max_chunks = 4; o.max_chunk = 400; o.big_rate = 0; }
     gen::ZFile z = gen::zfile(c, o);
     size_t n = z.nchunks();
     c.desc << z.desc;
